@@ -38,6 +38,7 @@ type bindingRequest struct {
 	source          Candidate   // Local candidate the request was sent from.
 	isUseCandidate  bool
 	nominationValue *uint32 // Tracks nomination value for renomination requests
+	isControlling   bool    // Role the request was sent in (ICE-CONTROLLING or ICE-CONTROLLED).
 }
 
 // Agent represents the ICE agent.
@@ -1683,6 +1684,7 @@ func (a *Agent) sendBindingRequest(msg *stun.Message, local, remote Candidate) {
 		source:          local,
 		isUseCandidate:  msg.Contains(stun.AttrUseCandidate),
 		nominationValue: nominationValue,
+		isControlling:   msg.Contains(stun.AttrICEControlling),
 	})
 
 	if pair := a.findPair(local, remote); pair != nil {
@@ -1836,6 +1838,10 @@ func (a *Agent) handleInbound(msg *stun.Message, local Candidate, remote netip.A
 		if remoteCandidate, ok = a.handleInboundRequest(remoteCandidate, local, remote, msg); !ok {
 			return
 		}
+	case stun.ClassErrorResponse:
+		a.handleInboundErrorResponse(local, remote, msg)
+
+		return
 	default:
 	}
 
@@ -1847,6 +1853,7 @@ func (a *Agent) handleInbound(msg *stun.Message, local Candidate, remote netip.A
 func canHandleInbound(msg *stun.Message) bool {
 	return msg.Type.Method == stun.MethodBinding &&
 		(msg.Type.Class == stun.ClassSuccessResponse ||
+			msg.Type.Class == stun.ClassErrorResponse ||
 			msg.Type.Class == stun.ClassRequest ||
 			msg.Type.Class == stun.ClassIndication)
 }
@@ -1877,6 +1884,42 @@ func (a *Agent) handleInboundResponse(
 	a.getSelector().HandleSuccessResponse(msg, local, remoteCandidate, remote)
 
 	return true
+}
+
+// handleInboundErrorResponse implements RFC 8445 section 7.2.5.1: a 487 (Role Conflict)
+// answer to one of our checks makes the agent take the role opposite to the one the
+// check was sent in. Every other error response is ignored.
+func (a *Agent) handleInboundErrorResponse(local Candidate, remote netip.AddrPort, msg *stun.Message) {
+	if a.remotePwd == "" {
+		return
+	}
+
+	if err := stun.MessageIntegrity([]byte(a.remotePwd)).Check(msg); err != nil {
+		a.log.Warnf("Discard error response with broken integrity from (%s), %v", remote, err)
+
+		return
+	}
+
+	var code stun.ErrorCodeAttribute
+	if err := code.GetFrom(msg); err != nil || code.Code != stun.CodeRoleConflict {
+		return
+	}
+
+	ok, pendingRequest, _ := a.handleInboundBindingSuccess(msg.TransactionID)
+	if !ok || !responseSymmetric(pendingRequest, local, remote) {
+		return
+	}
+
+	// A role switch that happened after the check was sent has already resolved the conflict.
+	if pendingRequest.isControlling != a.isControlling.Load() {
+		return
+	}
+
+	a.log.Warnf("Role conflict reported by (%s), switching role from %s", remote, a.role())
+	a.isControlling.Store(!a.isControlling.Load())
+	a.setSelector()
+	a.updatePairRoles()
+	a.requestConnectivityCheck()
 }
 
 func (a *Agent) handleInboundRequest(
